@@ -39,7 +39,7 @@ Qed.
    (or none), author = committer = the given identity, and the given message *)
 Theorem C02_commit_text_reads_back : forall tree parent n e t off msg,
   length tree = 20%nat -> (forall p, parent = Some p -> length p = 20%nat) ->
-  sign_ok n e t off -> msg_ok msg ->
+  sign_ok n e t off ->
   parse_commit (commit_text tree (option_map hex parent) (sign_string n e t off) (sign_string n e t off) msg)
   = Some (mkCommit tree (parent_list parent) (Some (mkSign n e t off)) (Some (mkSign n e t off)) msg).
 Proof. intros. now apply commit_roundtrip. Qed.
@@ -70,13 +70,13 @@ Theorem C02_commit_spec : forall e msg w c root subs cm,
   commit_post e c msg w root cm w'.
 Proof. exact commit_step_spec. Qed.
 
-(* with an identity and a message in the domain of C12 the recorded author and
+(* with an identity in the domain of C12 and ANY message the recorded author and
    committer are the configured identity and the recorded message is the message given *)
 Theorem C02_commit_records_identity_and_message : forall e c msg w root subs,
   Forall valid_entry (idx_of w) -> write_tree_top (idx_of w) = Some (root, subs) ->
   (forall d, In d (subs ++ [root]) -> (lenN d < 2 ^ 63)%N) ->
   (lenN (commit_data e c msg w root) < 2 ^ 63)%N ->
-  sign_ok (user_name (x_l c) (x_g c)) (user_email (x_l c) (x_g c)) (e_time e) (e_off e) -> msg_ok msg ->
+  sign_ok (user_name (x_l c) (x_g c)) (user_email (x_l c) (x_g c)) (e_time e) (e_off e) ->
   (forall tip, tip_of w = Some tip -> length tip = 20%nat) -> head_ok w c ->
   let tr := do_commit_trace e c msg w root subs in
   let w' := after_commit e c msg w root subs in
